@@ -2,6 +2,7 @@ package sim
 
 import (
 	"context"
+	"flag"
 	"encoding/json"
 	"fmt"
 	"io"
@@ -54,6 +55,11 @@ const (
 )
 
 func init() {
+	fs := flag.NewFlagSet("klog", flag.ContinueOnError)
+	klog.InitFlags(fs)
+	_ = fs.Set("logtostderr", "false")
+	_ = fs.Set("alsologtostderr", "false")
+	_ = fs.Set("stderrthreshold", "10")
 	klog.SetOutput(io.Discard)
 	klog.LogToStderr(false)
 }
@@ -126,6 +132,10 @@ type World struct {
 
 	// scratch for monitors and environment models
 	Scratch map[string]any
+	// inputs steered away from because they fall in a listed known finding's class
+	Excluded map[string]int
+
+	cache map[schema.GroupVersionKind]map[types.NamespacedName]client.Object
 }
 
 // Options configure a world.
@@ -138,6 +148,8 @@ func NewWorld(opt Options) *World {
 		epoch:   time.Now().Add(-48 * time.Hour).Truncate(time.Second),
 		inQueue: map[string]bool{},
 		Scratch: map[string]any{},
+		Excluded: map[string]int{},
+		cache:    map[schema.GroupVersionKind]map[types.NamespacedName]client.Object{},
 	}
 	w.tracker = clienttesting.NewObjectTracker(Scheme, scheme.Codecs.UniversalDecoder())
 	w.fake = fake.NewClientBuilder().WithScheme(Scheme).WithObjectTracker(w.tracker).Build()
@@ -216,33 +228,50 @@ func (w *World) record(wr *Write) {
 
 // ---------- typed access helpers ----------
 
+// Get returns a copy of the stored object (nil if absent). Reads of the harness itself are
+// served from a write-through cache of the store (the API server's truth, never stale).
 func (w *World) Get(gvk schema.GroupVersionKind, ns, name string) client.Object {
-	return w.getStored(gvk, types.NamespacedName{Namespace: ns, Name: name})
+	if o := w.cache[gvk][types.NamespacedName{Namespace: ns, Name: name}]; o != nil {
+		return o.DeepCopyObject().(client.Object)
+	}
+	return nil
 }
 
+// ListAll returns the stored objects of a kind sorted by namespace/name. The returned objects
+// are shared with the cache and MUST NOT be mutated.
 func (w *World) ListAll(gvk schema.GroupVersionKind, ns string) []client.Object {
-	listGVK := gvk
-	listGVK.Kind += "List"
-	var list client.ObjectList
-	if Scheme.Recognizes(listGVK) {
-		o, _ := Scheme.New(listGVK)
-		list = o.(client.ObjectList)
-	} else {
+	m := w.cache[gvk]
+	if len(m) == 0 {
 		return nil
 	}
-	var opts []client.ListOption
-	if ns != "" {
-		opts = append(opts, client.InNamespace(ns))
+	keys := make([]types.NamespacedName, 0, len(m))
+	for k := range m {
+		if ns == "" || k.Namespace == ns {
+			keys = append(keys, k)
+		}
 	}
-	if err := w.fake.List(context.TODO(), list, opts...); err != nil {
-		return nil
+	sort.Slice(keys, func(i, j int) bool {
+		if keys[i].Namespace != keys[j].Namespace {
+			return keys[i].Namespace < keys[j].Namespace
+		}
+		return keys[i].Name < keys[j].Name
+	})
+	out := make([]client.Object, 0, len(keys))
+	for _, k := range keys {
+		out = append(out, m[k])
 	}
-	sortList(list)
-	items, _ := metaExtract(list)
-	for _, it := range items {
-		it.GetObjectKind().SetGroupVersionKind(gvk)
+	return out
+}
+
+func (w *World) cachePut(gvk schema.GroupVersionKind, key types.NamespacedName, obj client.Object) {
+	if w.cache[gvk] == nil {
+		w.cache[gvk] = map[types.NamespacedName]client.Object{}
 	}
-	return items
+	if obj == nil {
+		delete(w.cache[gvk], key)
+		return
+	}
+	w.cache[gvk][key] = obj
 }
 
 func (w *World) Rollout(ns, name string) *rolloutsv1beta1.Rollout {
@@ -394,6 +423,9 @@ func (w *World) reconcileItem(it QItem) ReconcileResult {
 		}()
 		out, res.Err = r.Reconcile(context.TODO(), reconcile.Request{NamespacedName: it.Key})
 	}()
+	if len(w.ReconcileLog) < 20000 {
+		w.ReconcileLog = append(w.ReconcileLog, fmt.Sprintf("#%d %s err=%v result=%+v", w.Reconciles, it, res.Err, out))
+	}
 	if w.crashed {
 		// the process died inside this reconcile: restart everything
 		w.Restart()
